@@ -636,8 +636,9 @@ fn stream_b_case(groups: &[(i64, Vec<V>)], model: &mut model::Model, rep: &mut R
     let n_int = all.iter().filter(|v| matches!(v, V::I(_))).count();
     for q in ["SELECT SUM(a) FROM s", "SELECT AVG(a) FROM s", "SELECT SUM(a) FROM s WHERE g >= 0"] {
         let o = db.exec(q);
-        // recorded finding: only AVG still accumulates in unchecked i64 on the columnar SIMD path
-        let sig = if q.starts_with("SELECT AVG(") && sum_sig(&all) { Some("C24/columnar-avg-overflow") } else { None };
+        // (the former finding C24/columnar-avg-overflow is repaired by 5283a9b3: nothing is classified)
+        let sig: Option<&str> = None;
+        let _ = sum_sig(&all);
         match &o {
             Out::Panic(p) => {
                 rep.count("B_ungrouped_panic");
@@ -1312,9 +1313,8 @@ fn stream_f(args: &Args, rng: &mut Rng, rep: &mut Report) {
 /// narrow classes of recorded findings (known_findings.json); anything else is a violation
 fn classify_panic(sql: &str, msg: &str, loc: &str) -> Option<&'static str> {
     let only_avg = sql.contains("AVG(") && !sql.contains("GROUP BY");
-    if only_avg && msg.contains("attempt to add with overflow") && (loc.contains("simd/aggregation.rs") || loc.contains("columnar/simd_aggregate.rs")) {
-        return Some("C24/columnar-avg-overflow");
-    }
+    // repaired by 5283a9b3: an overflow panic on the columnar AVG path is a violation again
+    let _ = (only_avg, msg, loc);
     None
 }
 
